@@ -3,6 +3,7 @@ package main
 import (
 	"encoding/json"
 	"fmt"
+	"reflect"
 	"strings"
 
 	mxj "github.com/clbanning/mxj/v2"
@@ -99,7 +100,9 @@ func replayUpd(line []byte, a *Acc) {
 				break
 			}
 			// read-back clause on the real code
-			if c.C > 0 && len(c.Conds) == 0 && strings.HasSuffix("."+c.P, "."+c.Key) && c.Val.T != "l" {
+			// (not for a path whose last segment is the EMPTY key: ValuesForPath documents that it drops one trailing empty segment,
+			//  so "a." read back is the path "a" -- the two functions address different nodes with that string)
+			if c.C > 0 && len(c.Conds) == 0 && strings.HasSuffix("."+c.P, "."+c.Key) && c.Val.T != "l" && c.Key != "" {
 				vals, _ := mv.ValuesForPath(c.P)
 				ok := len(vals) == c.C
 				for _, v := range vals {
@@ -198,6 +201,19 @@ func replayMut(line []byte, a *Acc) {
 				v, e := mv.ValueForPath(c.P)
 				if e != nil || tagged.CanonGo(v) != c.Val.Norm() {
 					one("mut:set:readback", fmt.Sprintf("%s: ValueForPath afterwards = %s, %v", desc, tagged.CanonGo(v), e))
+				}
+				// the value that was set is the value that is there: a container with members of Go types JSON does not keep
+				// (int, int64, int32, a nested mxj.Map) reads back deeply equal, types included
+				typed := func() interface{} {
+					return map[string]interface{}{"i": 7, "i64": int64(8), "m": mxj.Map{"k": "v"}, "l": []interface{}{int32(1), "s"}}
+				}
+				if e2 := mv.SetValueForPath(typed(), c.P); e2 == nil {
+					v2, _ := mv.ValueForPath(c.P)
+					if !reflect.DeepEqual(v2, typed()) {
+						one("mut:set:readback-typed", fmt.Sprintf("SetValueForPath(<map with int / int64 / mxj.Map / int32 members>, %q): ValueForPath afterwards = %#v", c.P, v2))
+					}
+				} else {
+					one("mut:set:readback-typed", fmt.Sprintf("SetValueForPath(<map with Go-typed members>, %q) failed (%v) where setting %s succeeded", c.P, e2, c.Val.Norm()))
 				}
 			case "remove":
 				if ex, _ := mv.Exists(c.P); ex {
